@@ -236,6 +236,9 @@ impl System for ScenarioSys {
     fn decode_state(&self, d: &mut Dec) -> u8 {
         d.u8()
     }
+    fn stop_layer_on_violation(&self) -> bool {
+        true
+    }
 }
 
 fn lattice_vec(dim: usize, i: usize, salt: usize) -> Vec<u32> {
@@ -359,7 +362,7 @@ pub const FAMILIES: [&str; 12] = ["one-vector", "two-distinct", "three-distinct"
 
 pub fn c20(tier: Tier) -> i32 {
     let mut report = Report::new("C20", tier, "model_checking");
-    report.assume("termination is decided by a poll horizon of 20000 x (items + 10) x trees cancel polls per build");
+    report.assume("termination is decided by a poll horizon of 900 x (items + 20) cancel polls per build (a normal build of n items polls about 10 n times)");
     report.assume("a worker process that dies (stack overflow, abort) is reported with the scenario it was executing");
     let sizes: Vec<usize> = if tier == Tier::Quick { vec![1, 2, 3, 5, 17, 64, 65, 200, 201, 1000] } else { vec![1, 2, 3, 4, 5, 9, 17, 64, 65, 200, 201, 1000, 3000] };
     let metrics: Vec<Metric> = M7.to_vec();
@@ -387,7 +390,7 @@ pub fn c20(tier: Tier) -> i32 {
                         memories: vec![None],
                         seed: crate::common::verif_seed().wrapping_add(seed),
                         judge_distances: false,
-                        horizon: 20_000 * (n as u64 + 10) * 3,
+                        horizon: 300 * (n as u64 + 20) * 3,
                     });
                 }
             }
